@@ -29,7 +29,7 @@ SETY_KEY = lin.SETY_KEY
 def gen_static(g, Dw, Dy, N):
     prior = lin.gen_pdfv(g, 1, Dw, ctor="Sigma")
     cls = g.choice(["full", "full", "diag"])
-    ctor = g.choice(["Sigma", "Lambda", "all"])
+    ctor = g.choice(["Sigma", "Lambda", "all", "Sigma+Lambda"])
     obs = []
     for _ in range(N):
         c = lin.gen_cond(g, cls, 1, Dy, Dw, ctor=ctor)
@@ -44,7 +44,7 @@ def gen_static(g, Dw, Dy, N):
 
 def gen_batched(g, R, N, Dw, Dy):
     """a bank of R priors updated with N observed values of one observation model in ONE call: R*N posteriors, r*N+n"""
-    c = lin.gen_cond(g, g.choice(["full", "diag"]), 1, Dy, Dw, ctor=g.choice(["Sigma", "Lambda"]))
+    c = lin.gen_cond(g, g.choice(["full", "diag"]), 1, Dy, Dw, ctor=g.choice(["Sigma", "Lambda", "Sigma+Lambda"]))
     if c["b"] is None:
         c["b"] = [[Fr(0)] * Dy]
     return dict(scn="batched", prior=lin.gen_pdfv(g, R, Dw, ctor="Sigma"), c=c, ys=g.mat(N, Dy), xs=g.mat(2, Dw), R=R, N=N, Dw=Dw, Dy=Dy)
@@ -52,8 +52,8 @@ def gen_batched(g, R, N, Dw, Dy):
 
 def gen_kalman(g, Dz, Dx, T):
     return dict(scn="kalman", Dz=Dz, Dx=Dx, T=T, prior=lin.gen_pdfv(g, 1, Dz, ctor="Sigma"),
-                state=dict(lin.gen_cond(g, g.choice(["full", "diag"]), 1, Dz, Dz, ctor=g.choice(["Sigma", "Lambda"])), b=[g.vec(Dz)]),
-                emis=dict(lin.gen_cond(g, g.choice(["full", "diag"]), 1, Dx, Dz, ctor=g.choice(["Sigma", "Lambda"])), b=[g.vec(Dx)]),
+                state=dict(lin.gen_cond(g, g.choice(["full", "diag"]), 1, Dz, Dz, ctor=g.choice(["Sigma", "Lambda", "Sigma+Lambda"])), b=[g.vec(Dz)]),
+                emis=dict(lin.gen_cond(g, g.choice(["full", "diag"]), 1, Dx, Dz, ctor=g.choice(["Sigma", "Lambda", "Sigma+Lambda"])), b=[g.vec(Dx)]),
                 ys=g.mat(T, Dx), traj=g.mat(T + 1, Dz))
 
 
